@@ -113,6 +113,9 @@ def corpus():
         "jack " + two, "jack " + vecs([1.0, 2.0, 3.0]), "boot 5 200 " + vecs([1.0, 2.0, 3.0]),
         "shuf2 9 %s %s" % (vecs([0.0, -0.0, 0.0, -0.0, 1.0]), vecs([1.0, 2.0, 3.0, 4.0, 5.0])),
         "shuf 9 " + vecs([0.0, -0.0, -0.0, 0.0]),
+        # round-10 seed C19v: len == n_bootstrap at/above a product threshold (neither "longer axis" branch ran)
+        "boot 10 128 " + vecs([float(i) + 0.25 for i in range(128)]),
+        "boot 11 150 " + vecs([float(i) - 0.5 for i in range(150)]),
         # length 0 is outside the property (panics), unequal lengths panic
         "boot 1 2 0", "jack 0", "shuf 1 0", "shuf2 1 0 0", "shuf2 1 %s %s" % (two, one),
         # generator: rejection-heavy Lemire bound, overflow panics, asserts
@@ -133,6 +136,43 @@ def pick_n(rng, cap):
 
 SIZES = sorted({1, 2, 3, 4, 5, 7, 8, 9, 15, 16, 17, 24, 31, 32, 33, 63, 64, 65, 127, 128, 129, 255, 256, 257, 511, 512, 513,
                 1023, 1024, 1025, 1535, 1536, 1537, 1999, 2000})
+
+
+def coincidence_pairs():
+    """(len, n_bootstrap) pairs: equal arguments, off by one, products at 2^k and 2^k +- 1 (k = 10..16) with both
+    orientations where the scope (len <= 2000, n_bootstrap <= 200) allows, and the degenerate (len, 1), (1, n)."""
+    pairs = []
+    for n in (1, 2, 7, 64, 100, 127, 128, 129, 150, 181, 200):
+        pairs.append((n, n))
+        if n + 1 <= 200:
+            pairs.append((n, n + 1))
+        if n >= 2:
+            pairs.append((n, n - 1))
+        if n + 1 <= 2000:
+            pairs.append((n + 1, n))
+    for k in range(10, 17):
+        for P in ((1 << k) - 1, 1 << k, (1 << k) + 1):
+            facs = [(P // nb, nb) for nb in range(1, 201) if P % nb == 0 and P // nb <= 2000]
+            if not facs:  # prime or out of scope: nearest product from below with a long and a short orientation
+                facs = [(P // nb, nb) for nb in (200, 33) if P // nb <= 2000]
+            long_ = [f for f in facs if f[0] > f[1]]
+            short = [f for f in facs if f[0] < f[1]]
+            eq = [f for f in facs if f[0] == f[1]]
+            for group in (long_, short, eq):
+                if group:
+                    pairs.append(group[len(group) // 2])
+                    if group[-1] != group[len(group) // 2]:
+                        pairs.append(group[-1])
+    for n in (2, 17, 128, 2000):
+        pairs.append((n, 1))
+    for nb in (2, 17, 128, 200):
+        pairs.append((1, nb))
+    seen, out = set(), []
+    for q in pairs:
+        if q not in seen and 1 <= q[0] <= 2000 and 1 <= q[1] <= 200:
+            seen.add(q)
+            out.append(q)
+    return out
 
 
 def strata(rng, lines, cover, rep):
@@ -187,6 +227,22 @@ def strata(rng, lines, cover, rep):
         lines.append("shuf2 %d %s %s" % (sd(), vecs(mkdata(rng, n, "repeated")), vecs(dist(n))))
         lines.append("shuf %d %s" % (sd(), vecs(z)))
         cover["strata:zeros"] += 1
+    # 7. argument coincidences and product thresholds (round-10 seed C19v): len == n_bootstrap, +-1, len * n_bootstrap at
+    #    2^k, 2^k +- 1; shuffle_two with both slices of length 1, 2 and with equal contents; ties inside one array
+    pairs = coincidence_pairs()
+    for q, (n, nb) in enumerate(pairs):
+        big = n * nb > 20000
+        if rep == 0 or not big or (q + rep) % 6 == 0:     # thorough repeats the large ones in rotation only
+            lines.append("boot %d %d %s" % (sd(), nb, vecs(mkdata(rng, n, "distinct" if q % 3 else rng.choice(KINDS)))))
+            cover["strata:coincidence-boot"] += 1
+    for n in (1, 2, 3, 128):
+        a = dist(n)
+        lines.append("shuf2 %d %s %s" % (sd(), vecs(a), vecs(a)))                 # equal contents
+        lines.append("shuf2 %d %s %s" % (sd(), vecs(a), vecs(list(reversed(a)))))
+        lines.append("shuf2 %d %s %s" % (sd(), vecs([1.5] * n), vecs([1.5] * n)))
+        lines.append("shuf %d %s" % (sd(), vecs([a[0]] * n)))
+        lines.append("jack " + vecs([a[0]] * n))
+        cover["strata:coincidence-other"] += 1
     # 6. peripheral routes of DiscreteUniform (default+update, setters, clone, long sample_n first)
     for route in (1, 2, 3, 4):
         for lo, hi in ((0, 0), (0, 1), (0, 2), (-3, 4), (0, 16), (0, 1999), (5, 4), (-7, -7), (0, 255), (0, 256)):
